@@ -356,9 +356,11 @@ func utf8Dec(b []byte) int {
 //@   ensures [high@C07] implies(codePoint >= 0x80, forall(0, len(result), func(k int) bool { return result[k] >= 0x80 }))
 
 // specStay: code points that cannot be written raw into a double-quoted literal (from ECMA-262 12.9.4: the quote,
-// the backslash, the line terminators CR and LF) and surrogate code units (no UTF-8 form of their own).
+// the backslash, the line terminators CR and LF), surrogate code units (no UTF-8 form of their own), and decimal digits:
+// a digit written raw right after a kept `\0` or legacy octal escape would become part of that escape ("\0\x31" is
+// NUL followed by "1", "\01" is U+0001).
 func specStay(v int) bool {
-	return v == '"' || v == '\\' || v == '\n' || v == '\r' || (0xD800 <= v && v <= 0xDFFF)
+	return v == '"' || v == '\\' || v == '\n' || v == '\r' || (0xD800 <= v && v <= 0xDFFF) || ('0' <= v && v <= '9')
 }
 
 //@ func mustStayEscaped(codePoint)
@@ -452,7 +454,8 @@ func specStay(v int) bool {
 
 //@ func (l *Lexer) readRawString()
 //@   props C10 C11 C07
-//@   loop 1 each [plain@C07] implies(!(byteAt(l.input, atHead(l.position)+1) == '\\' && byteAt(l.input, atHead(l.position)+2) == '`'), writeSeq(evByte(byteAt(l.input, atHead(l.position)+1))) && l.position == atHead(l.position)+1)
+//@   loop 1 each [plain@C07] implies(byteAt(l.input, atHead(l.position)+1) != '\\' || atHead(l.position)+2 >= len(l.input), writeSeq(evByte(byteAt(l.input, atHead(l.position)+1))) && l.position == atHead(l.position)+1)
+//@   loop 1 each [escape.pair@C07] implies(byteAt(l.input, atHead(l.position)+1) == '\\' && atHead(l.position)+2 < len(l.input) && byteAt(l.input, atHead(l.position)+2) != '`', writeSeq(evByte('\\'), evByte(byteAt(l.input, atHead(l.position)+2))) && l.position == atHead(l.position)+2)
 //@   loop 1 each [backtick@C07] implies(byteAt(l.input, atHead(l.position)+1) == '\\' && byteAt(l.input, atHead(l.position)+2) == '`', writeSeq(evByte('`')) && l.position == atHead(l.position)+2)
 //@   requires lexInv(l) && l.position < len(l.input)
 //@   modifies l.position, l.readPosition, l.CurrentChar, l.Line, l.Column
@@ -460,6 +463,7 @@ func specStay(v int) bool {
 //@   loop 1 decreases len(l.input) - l.position
 //@   ensures [cursor] lexInv(l)
 //@   ensures [progress] l.position > old(l.position)
+//@   ensures [closed@C07] l.position >= len(l.input) || l.input[l.position] == '`'
 
 // C07: what one iteration of the scanner writes for each kind of string element (c1, c2, ... are the bytes after the
 // cursor at the head of the iteration): ordinary bytes verbatim (a double quote gets a backslash: the printer re-quotes
@@ -489,6 +493,7 @@ func specStay(v int) bool {
 //@   loop 7 invariant [frame] true
 //@   ensures [cursor] lexInv(l)
 //@   ensures [progress] l.position > old(l.position)
+//@   ensures [closed@C07] l.position >= len(l.input) || l.input[l.position] == delimiter
 
 //@ func (l *Lexer) readLeadingComments()
 //@   props C10 C11 C15
